@@ -126,6 +126,10 @@ def build_backend(world, backend, scratch, name="m"):
     """Build the real map backend for a world document."""
     latlon = bool(world.get("latlon"))
     nodes = [(l, (p[0], p[1]), list(nb)) for l, p, nb in world["nodes"]]
+    late = set(_tup(e) for e in world.get("late_edges", []))
+    if late:
+        # roads that are only added to the live map later (operation "grow")
+        nodes = [(l, p, [b for b in nb if (l, b) not in late]) for l, p, nb in nodes]
     linked = {}
     for e, fs in world.get("linked", []):
         linked.setdefault(_tup(e), []).extend(_tup(f) for f in fs)
@@ -474,6 +478,7 @@ class Session:
         self.unique = False
         self.jumped = False      # continue_with_distance used
         self.restarts = 0
+        self.grown = False
         self.misuse = 0
         self.log_records = 0
 
@@ -519,6 +524,12 @@ class Session:
 
     def _do(self, i, op):
         kind = op["op"]
+        if kind == "grow":
+            # the user adds roads to the map object between two matching calls (not an operation of the matcher)
+            for a, b in self.world.get("late_edges", []):
+                self.backend.add_edge(a, b)
+            self.grown = True
+            return
         if i in (self.faults.get("restart_before") or []) and self.backend_kind in ("sqlite", "sqlite_bulk", "pickle", "inmem"):
             # new user session: backend reopened from disk, new matcher with the current width
             w = self._current_width()
